@@ -381,7 +381,7 @@ func genJsonDec(g *G, tier string, emit func(string)) {
 	// only while the decoder has not definitively rejected it
 	L := 5
 	if tier == "thorough" {
-		L = 7
+		L = 6 // (7 is 4 x 10^8 cases and some 40 GB of case files)
 	}
 	var rec func(prefix []byte)
 	rec = func(prefix []byte) {
